@@ -157,6 +157,9 @@ func newRsys(idx int) (r *rsys, err error) {
 }
 
 func NewRemote() (*Remote, error) {
+	if os.Getenv("C11_DEBUG") == "" {
+		log.SetDefault(log.NewSilentLogger()) // Shared.open logs stream errors through the global logger (stdout)
+	}
 	x := &Remote{}
 	for i := 0; i < 2; i++ {
 		r, err := newRsys(i)
@@ -327,8 +330,9 @@ func (x *Remote) breakburst(from, ns, count, base, closer int) string {
 		x.s[from].sys.Tell(x.s[from].sndRef[k], &burstCmd{target: x.s[from].peerRec, ids: ids(base, k, count), chunk: 64})
 	}
 	waitFor(5*time.Second, func() bool { return x.s[to].rec.total.Load()-recBefore >= int64(ns*count/4) })
-	sh := vivid.VerifShared(x.s[closer].sys)
-	sh.Close()
+	if !capped(60*time.Second, func() { vivid.VerifShared(x.s[closer].sys).Close() }) {
+		return "hang"
+	}
 	reopen := x.share(closer)
 	// all asks issued, then quiet: no arrival and no reply for 300 ms
 	waitFor(30*time.Second, func() bool {
@@ -369,8 +373,22 @@ func (x *Remote) share(n int) string {
 	return "err:" + strings.ReplaceAll(err.Error(), " ", "_")
 }
 
+// capped runs f and reports whether it returned within the cap.
+func capped(d time.Duration, f func()) bool {
+	done := make(chan struct{})
+	go func() { f(); close(done) }()
+	select {
+	case <-done:
+		return true
+	case <-time.After(d):
+		return false
+	}
+}
+
 func (x *Remote) closeSharing(n int) string {
-	vivid.VerifShared(x.s[n].sys).Close()
+	if !capped(60*time.Second, func() { vivid.VerifShared(x.s[n].sys).Close() }) {
+		return "hang"
+	}
 	x.closed[n] = true
 	// both sides see the streams go (event driven, capped)
 	waitFor(10*time.Second, func() bool {
